@@ -2,6 +2,7 @@ package lucene
 
 import (
 	"fmt"
+	"math"
 	"reflect"
 	"strconv"
 	"strings"
@@ -264,8 +265,9 @@ func parseLiteral(token lex.Token) (e any, err error) {
 	}
 
 	// attempt to parse it as a float
+	// (NaN and Inf are accepted by ParseFloat but they are words, not numbers we can render)
 	fval, err := strconv.ParseFloat(token.Val, 64)
-	if err == nil {
+	if err == nil && !math.IsNaN(fval) && !math.IsInf(fval, 0) {
 		return expr.Lit(fval), nil
 	}
 
